@@ -12,7 +12,7 @@ Inductive call2 :=
 | CAvgPool (fixed : bool) (e : Z) (s : list Z) (kernel stride padding : ints) (ceil_mode count_include_pad : bool)
 | CPadShape (s pad : list Z) (value : option Z)
 | CPadAxis (s pad : list Z) (value : option Z) (a : Z) (xs : list (list Z)) (fill : list Z)   (* only axis a is padded *)
-| CUnfold (s : list Z) (dimension size step : Z) (xs : list (list Z))
+| CUnfold (zf : bool) (s : list Z) (dimension size step : Z) (xs : list (list Z))
 | CUnbind (r dim n : Z) (xs : list (list Z))
 | CGather (s : list Z) (dim : Z) (idx : list Z)
 | CSoftmax (log_ squeeze_with_axes : bool) (s : list Z) (dim : Z)
@@ -39,9 +39,9 @@ Definition run_call2 (c : call2) : option result2 :=
   | CPadAxis s pad _ a xs fill =>
       obind (aten_pad_shape s pad) (fun sh =>
       obind (aten_pad_axis fill (zlen s) a xs pad) (fun ys => Some (R2List [R2Shape sh; R2Slabs a ys])))
-  | CUnfold s d size step xs =>
-      obind (aten_unfold_shape s d size step) (fun sh =>
-        if zlen s =? 0 then Some (R2List [R2Shape sh; R2Windows [xs]])
+  | CUnfold zf s d size step xs =>
+      obind (aten_unfold_shape_v zf s d size step) (fun sh =>
+        if zlen s =? 0 then Some (R2List [R2Shape sh; R2Windows [if zf && (size =? 0) then [[]] else xs]])
         else obind (aten_unfold xs size step) (fun ws => Some (R2List [R2Shape sh; R2Windows ws])))
   | CUnbind r dim _ xs => option_map (fun p => R2Slabs (fst p) (snd p)) (aten_unbind r dim xs)
   | CGather s dim idx => option_map R2Shape (aten_gather_shape s dim idx)
@@ -56,7 +56,7 @@ Definition skel_call2 (c : call2) : skel :=
   | CAvgPool fx e s k st p cm cip => if fx then skel_avg_pool_fixed e s k st p cm cip else skel_avg_pool e s k st p cm cip
   | CPadShape s pad v => skel_pad s pad v
   | CPadAxis s pad v _ _ _ => skel_pad s pad v
-  | CUnfold s d size step _ => skel_unfold s d size step
+  | CUnfold zf s d size step _ => skel_unfold_v zf s d size step
   | CUnbind _ dim n _ => skel_unbind dim n
   | CGather s dim idx => skel_gather s idx dim
   | CSoftmax l sq s dim => skel_softmax l sq s dim
